@@ -1186,7 +1186,9 @@ ABSL_ATTRIBUTE_NOINLINE void ConcurrentTransientHashSet<T, H, E>::reserve(
 template <typename T, typename H, typename E>
 ABSL_ATTRIBUTE_NOINLINE size_t ConcurrentTransientHashSet<T, H, E>::total_size(
     TableNode* node) const noexcept {
-  auto sum = _head.table.bucket_count();
+  // With a chained table present the head is either full or the empty
+  // default constructed placeholder, bucket_count is only right for the former
+  auto sum = _head.table.size();
   while (true) {
     auto next = node->next.load(::std::memory_order_acquire);
     if (next == nullptr) {
